@@ -46,8 +46,17 @@ def batchify_spec(u, selfobj, x, shape):
 def unbatchify_tensor_spec(y, factors):
     """y rows (f_m major ... f_1, b) -> out[b, i_1, ..., i_m] = y[(i_m * f_{m-1} ... ) ...]: see unit for the formula.
     Single factor k: out[b, j] = y[j * B + b] with B = rows // k."""
+    if len(factors) == 2:
+        # proved against the body by ops.unbatchify.a_s: out[b, i, j] = y[(j * a + i) * B + b]  (LAST factor outermost in the rows)
+        a, k2 = factors
+        R = y.shape[0]
+        Bn = ops.simp_int(ops.scalar_binop("floordiv", R, ops.simp_int(ops.scalar_binop("mul", a, k2, wf=False)), wf=False))
+        ys = y.snap()
+        mul = lambda p, q: ops.simp_int(ops.scalar_binop("mul", p, q, wf=False))
+        return mk((Bn, a, k2) + tuple(y.shape[1:]), y.dtype,
+                  lambda I: ys((ops.simp_add(mul(ops.simp_add(mul(I[2], a), I[1]), Bn), I[0]),) + tuple(I[3:])))
     if len(factors) != 1:
-        raise ops.Unsupported("unbatchify spec with nested factors at a call site")
+        raise ops.Unsupported("unbatchify spec with more than two nested factors at a call site")
     k = factors[0]
     R = y.shape[0]
     Bn = ops.simp_int(ops.scalar_binop("floordiv", R, k, wf=False))
@@ -165,6 +174,19 @@ def _nest(u, nf, td_mode, roundtrip=True):
         return
     same_tensor(u, "roundtrip.shape", z, (B,) + tuple(fs) + (D,), lambda *I: z.at(*I))
     u.prove("roundtrip.identity", z.at(b, *idx, d) == x.at(b, d))
+
+
+@unit("ops.unbatchify.a_s", file=OPS, func="unbatchify", props=("C12",))
+def _(u):
+    # arbitrary (not replicated) rows: the nested inverse regroups rows ordered (start j, augmentation i, instance b)
+    B, A, S, D = u.dims("B A S D")
+    y = u.tensor("y", (S * (A * B), D), "f")
+    u.inline((OPS, "_unbatchify_single"))
+    z = u.run(OPS, "unbatchify", y, (A, S))
+    b, i, j, d = u.idx((B,), "b"), u.idx((A,), "i"), u.idx((S,), "j"), u.idx((D,), "d")
+    same_tensor(u, "unbatchify2.shape", z, (B, A, S, D), lambda *I: z.at(*I))
+    u.prove("unbatchify2.layout", z.at(b, i, j, d) == y.at((j * A + i) * B + b, d))
+    u.canary("unbatchify2.aug-outermost", z.at(b, i, j, d) == y.at((i * S + j) * B + b, d))
 
 
 @unit("ops.batchify.k", file=OPS, func="batchify", props=("C12",))
